@@ -146,3 +146,12 @@ package json
 //@ ensures keep: peekerOK(p)
 //@ ensures exact: len(ret1) == 0 ==> bytesAre(old(p.tokens[p.pos]).Bytes, "true") || bytesAre(old(p.tokens[p.pos]).Bytes, "false") || bytesAre(old(p.tokens[p.pos]).Bytes, "null")
 //@ ensures wellformed: forall k int :: 0 <= k && k < len(ret1) ==> ret1[k] != nil && ret1[k].Severity == hcl.DiagError && ret1[k].Summary != ""
+
+// ---- JSON expressions (unit U4b, C13) ----
+// A string value: in full-expression mode (a non-nil context) its content goes through the native
+// template parser exactly once - whatever it contains - and in literal-only mode it is the string
+// itself, verbatim. strVal(s) is the cty string value of s (uninterpreted).
+// verif:func (*expression).Value
+//@ nosafety
+//@ ensures template: typeis(old(e.src), ptr(stringVal)) && ctx != nil ==> tmplParses == old(tmplParses) + 1
+//@ ensures verbatim: typeis(old(e.src), ptr(stringVal)) && ctx == nil ==> ret0 == strVal(old(unbox(e.src, ptr(stringVal)).Value)) && len(ret1) == 0
